@@ -373,6 +373,11 @@ pub const KF_ABANDONED: &str = "kf:provisional-member-of-vanished-cycle-accepted
 /// (a further iteration or execution) in which P did not run. `node_of_id` maps the `Id`
 /// bits of a `NodeKey` to its node.
 pub fn abandoned_member_signature(recs: &[Rec], node_of_id: &dyn Fn(u64) -> Option<u8>) -> bool {
+    !abandoned_members(recs, node_of_id).is_empty()
+}
+
+/// the members P of the signature above
+pub fn abandoned_members(recs: &[Rec], node_of_id: &dyn Fn(u64) -> Option<u8>) -> BTreeSet<u8> {
     // per thread: stack of open bodies
     let mut open: std::collections::BTreeMap<u32, Vec<u8>> = Default::default();
     // P -> (heads that were on the stack when P last completed, position of that End)
@@ -416,7 +421,7 @@ pub fn abandoned_member_signature(recs: &[Rec], node_of_id: &dyn Fn(u64) -> Opti
             _ => {}
         }
     }
-    pending.iter().any(|(p, (hs, at))| {
+    pending.iter().filter(|(p, (hs, at))| {
         hs.iter().any(|h| {
             // (i) the head completed without being iterated or finalized as a cycle head, or
             // (ii) the head started again after P's last execution, P did not run in it, and the
@@ -428,7 +433,7 @@ pub fn abandoned_member_signature(recs: &[Rec], node_of_id: &dyn Fn(u64) -> Opti
             let iterated_after = iter_at.get(h).map(|v| v.iter().any(|s| s > at)).unwrap_or(false);
             !iterated.contains(h) || (restarted && !p_ran_after && !iterated_after)
         })
-    })
+    }).map(|(p, _)| *p).collect()
 }
 
 /// does the program contain calls whose execution depends on the value accumulated so far?
@@ -460,11 +465,12 @@ pub struct CycKf {
     backdate_rev: Option<u32>,
     abandoned: bool,
     abandoned_n: u32,
+    abandoned_set: BTreeSet<u8>,
 }
 
 impl CycKf {
     pub fn new(inner: Box<dyn Oracle>) -> Self {
-        CycKf { inner, tainted: Default::default(), exec_rev: Default::default(), manifested: false, ever_cyclic: BTreeSet::new(), unstable_finalizations: 0, finalizations: 0, backdate_hits: 0, backdate_rev: None, abandoned: false, abandoned_n: 0 }
+        CycKf { inner, tainted: Default::default(), exec_rev: Default::default(), manifested: false, ever_cyclic: BTreeSet::new(), unstable_finalizations: 0, finalizations: 0, backdate_hits: 0, backdate_rev: None, abandoned: false, abandoned_n: 0, abandoned_set: BTreeSet::new() }
     }
 }
 
@@ -508,9 +514,11 @@ impl Oracle for CycKf {
         let mut ran: BTreeSet<u8> = BTreeSet::new();
         if matches!(cx.res, StepRes::Got { real: Ok(_), .. }) {
             let node_of = |id: u64| cx.ix.dk2l.iter().find(|(dk, _)| dk.id == id).and_then(|(_, l)| if let LKey::Node(n, _) = l { Some(*n) } else { None });
-            if abandoned_member_signature(cx.recs, &node_of) {
+            let ab = abandoned_members(cx.recs, &node_of);
+            if !ab.is_empty() {
                 self.abandoned = true;
                 self.abandoned_n += 1;
+                self.abandoned_set.extend(ab);
             }
         }
         for r in cx.recs {
@@ -548,7 +556,7 @@ impl Oracle for CycKf {
                 if stale_like && reaches_tainted {
                     x.rule = KF_STALE_DEPS.to_string();
                     self.manifested = true;
-                } else if x.rule == "value-mismatch" && self.abandoned {
+                } else if x.rule == "value-mismatch" && self.abandoned && reach.iter().any(|n| self.abandoned_set.contains(n)) {
                     x.rule = KF_ABANDONED.to_string();
                 } else if x.rule == "unexpected-panic"
                     && x.detail.contains("returned the same value, but the previous execution changed at")
